@@ -46,6 +46,16 @@ def check(ctx, cfg):
     r8(ctx, cfg)
     r9(ctx, cfg)
     r10(ctx, cfg)
+    r11(ctx, cfg)
+
+
+def r11(ctx, cfg):
+    """"observes ... the funds it was just sent": the transfer of the attached funds happens, and has succeeded, before the entry
+    point is called - in `execute_wasm` and in `process_wasm_msg_instantiate` alike (C05.R1/R2 under C10's id), and the query
+    reaches the function the contract author supplied (C17.R13)"""
+    from rules import C05, C17
+    C05.r1_r2(ctx, cfg, R1="C10.R11", R2="C10.R11")
+    C17.r13(ctx, cfg, R="C10.R11", only=("query",))
 
 
 def r10(ctx, cfg):
